@@ -1,6 +1,6 @@
 (* C08 — table obligations: facts about the source as extracted into Tables.v on this run (through Cfg.src_cfg),
    each discharged by closed computation.  When the source changes exactly the lemma naming that shape stops checking. *)
-From G08 Require Import Cfg Spec Proofs V1Proofs InvProofs.
+From G08 Require Import Tables Cfg Spec Proofs V1Proofs InvProofs.
 
 (* identifier length and the two signatures *)
 Lemma ob_common : cfg_common_ok src_cfg.
@@ -25,6 +25,11 @@ Proof. vm_compute. first [left; reflexivity | right; split; reflexivity]. Qed.
    unassigned v2 commands and families rejected (F8) *)
 Lemma ob_strict : cfg_strict_ok src_cfg.
 Proof. vm_compute. repeat split. Qed.
+
+(* Conn.readHeaderContext: the isHeaderRead test is repeated under the mutex (and, checked by the translator itself:
+   one ReadHeader call, header and error stored before the single Store(true), Read/Write/ReadFrom/WriteTo guarded) *)
+Lemma ob_once : t_once_recheck = true.
+Proof. vm_compute. reflexivity. Qed.
 
 (* slices stay inside the 232-byte buffer (a slice beyond it would be a run-time panic) *)
 Lemma ob_buffer_bounds :
